@@ -4,12 +4,13 @@
 cid=$1; dir=$2; tier=${3:-quick}
 cd /repo || exit 2
 if ! git diff --quiet; then echo "/repo has local changes; refusing"; exit 2; fi
-sed "s#/tmp/seed/$cid/#/repo/#g; s#/tmp/seed/$cid#/repo#g" "$dir/demo.py" > /tmp/seed/demo_run.py
-PYTHONPATH=/repo/src timeout 300 /venv/bin/python /tmp/seed/demo_run.py > /tmp/seed/demo0.out 2>&1; d0=$?
+mkdir -p /tmp/seed/run
+sed "s#/tmp/seed/$cid/#/repo/#g; s#/tmp/seed/$cid#/repo#g" "$dir/demo.py" > /tmp/seed/run/demo.py
+PYTHONPATH=/repo/src timeout 300 /venv/bin/python /tmp/seed/run/demo.py > /tmp/seed/demo0.out 2>&1; d0=$?
 git apply --check "$dir/patch.diff" 2>/dev/null || { echo "RESULT $cid $dir patch-does-not-apply"; exit 2; }
 git apply "$dir/patch.diff"
 trap 'git -C /repo checkout -- . ' EXIT
-PYTHONPATH=/repo/src timeout 300 /venv/bin/python /tmp/seed/demo_run.py > /tmp/seed/demo1.out 2>&1; d1=$?
+PYTHONPATH=/repo/src timeout 300 /venv/bin/python /tmp/seed/run/demo.py > /tmp/seed/demo1.out 2>&1; d1=$?
 ut=$(cd /repo && timeout 600 /venv/bin/python -m pytest -q -p no:cacheprovider tests/unit_tests 2>&1 | tail -1)
 cd /verif && out=$(PYTHONPATH=/repo/src PYTHONHASHSEED=0 timeout 3000 /venv/bin/python harness/check.py $cid --tier $tier 2>&1 | grep -E "VIOLATION|^C[0-9]+ ")
 nv=$(echo "$out" | grep -c VIOLATION)
